@@ -35,10 +35,6 @@ proof fn lemma_powi_sq(s: int, k: nat)
         assert(s * ((s * s) * q) == s * (s * s * q)) by (nonlinear_arith);
     }
 }
-proof fn lemma_cong_refl(x: int)
-    ensures cong(x, x)
-{
-}
 proof fn lemma_cong_neg_modq(x: int)
     ensures cong(modq(-x), -x)
 {
